@@ -131,7 +131,9 @@ def pair_programs(draw):
 def judge_items(items, meta, res, count=True):
     asm = env.load_asm()
     prog = S.Program(items, ['pairs'], True)
-    src = prog.text()
+    # half of the programs in the spelling alternatives that are not C13 rewrite kinds (%hi X without parentheses, blanks round operators ...)
+    h = env.chash(prog.text())
+    src = prog.text(ir.Style(1 + h[1] + 256 * h[2], kinds=set())) if h[0] % 2 else prog.text()
     for comp in (False, True):
         r = progcheck.assemble(asm, src, comp)
         if r[0] != 'ok':
